@@ -13,6 +13,7 @@ import DracoProofs.EbBasic
     values; both need invariants of the connectivity loop and the traversal.
   * corner arithmetic used by every table operation (`Next`/`Previous` are mutually inverse,
     stay inside the face, `Next³ = id`).
+  * the standard traversal decoder yields only the five topology symbols, ≤ 3 bits each.
   * `IntSqrt` is the floor square root on an initial segment (n < 200) (by evaluation).
 -/
 namespace Draco.C01Eb
@@ -54,6 +55,16 @@ example : prevC (nextC 5) = 5 ∧ nextC 5 = 3 ∧ nextC (nextC (nextC 4)) = 4 :=
 
 /-- the invalid corner is a fixed point of both (the C++ returns the argument) -/
 theorem corner_invalid_fixed : nextC inv = inv ∧ prevC inv = inv := by decide
+
+/-- `MeshEdgebreakerTraversalDecoder::DecodeSymbol` returns one of TOPOLOGY_C/S/L/R/E (the "unknown
+    symbol" exit of the connectivity loop is dead for the standard traversal) and consumes at most
+    three bits, also past the end of the data -/
+theorem eb_standard_symbol_spec (r : BitReader) :
+    (decodeSymbolStd r).1 ∈ [topoC, topoS, topoL, topoR, topoE] ∧
+    (decodeSymbolStd r).2.decoded ≤ r.decoded + 3 := decodeSymbolStd_spec r
+
+example : (decodeSymbolStd (BitReader.start [7])).1 = topoE ∧ (decodeSymbolStd (BitReader.start [])).1 = topoC
+    ∧ (decodeSymbolStd (BitReader.start [5])).1 = topoR := by decide
 
 set_option maxRecDepth 20000 in
 /-- `IntSqrt` is the floor square root for every argument below 200 -/
